@@ -344,7 +344,17 @@ pub fn c09(m: &Movie, e: &Expect) -> Issues {
             return out;
         };
         let want = e.audio[k].pts as i128 - e.video[0].pts as i128;
-        errs.push((pa - pv0) - want);
+        // each track's times are in its own media timescale (mdhd); the submitted difference is
+        // in 90 kHz ticks. With both at 90 kHz this is a plain difference, otherwise the times
+        // are brought to 90 kHz first (rounded to the nearest tick).
+        let (vts, ats) = (v.mdhd.timescale.max(1) as i128, a.mdhd.timescale.max(1) as i128);
+        let got = if vts == 90_000 && ats == 90_000 {
+            pa - pv0
+        } else {
+            let to90k = |x: i128, ts: i128| (x * 90_000 * 2 + ts) / (2 * ts);
+            to90k(pa, ats) - to90k(pv0, vts)
+        };
+        errs.push(got - want);
     }
     if errs.iter().all(|x| x.abs() <= 1) {
         return out;
